@@ -71,6 +71,8 @@ func genCompareCase(prop, tier string, r *rand.Rand) *Case {
 	if r.IntN(3) == 0 {
 		c.Compare.Notifier = "drain"
 		c.Compare.NotifierStep = pick(r, []int64{0, 1, 100})
+		// as "gedcom diff" does, wait until Compare has closed the Notifier
+		c.Compare.WaitNotifier = r.IntN(2) == 0
 	}
 	if r.IntN(4) == 0 {
 		c.Compare.DiffPage = true
